@@ -223,6 +223,13 @@ fn first_text_difference(a: &str, b: &str) -> String {
     format!("first difference at char {}: original '...{}...', restored '...{}...'", i, ca[st..ea].iter().collect::<String>(), cb[st..eb].iter().collect::<String>())
 }
 
+/// Is every non-finite number of the rendering a negative infinity (the logarithm of a zero
+/// probability), and is there at least one?
+pub fn non_finite_only_neg_inf(debug: &str) -> bool {
+    let nf: Vec<f64> = lex(debug).iter().filter_map(|t| if let Tok::Num(v) = t { Some(*v) } else { None }).filter(|v| !v.is_finite()).collect();
+    !nf.is_empty() && nf.iter().all(|v| *v == f64::NEG_INFINITY)
+}
+
 pub fn mentions_non_finite(debug: &str) -> bool {
     lex(debug).iter().any(|t| matches!(t, Tok::Num(v) if !v.is_finite()))
 }
